@@ -125,7 +125,10 @@ class NumeralTerm(Term):
 
 class VariableTerm(Term):
     def __init__(self,s):
-        self.varname = s
+        # name of the Python local that stands for the variable: the trailing underscore
+        # keeps it apart from Python constants (True, None, __debug__) and from the names the
+        # generated code reads from the engine (ATOM_NIL)
+        self.varname = s + '_'
     def __str__(self):
         return self.varname
     @property
